@@ -178,8 +178,9 @@ pub fn worker(check: &dyn Check, ctx: &Ctx, a: &WorkerArgs) -> i32 {
         idx = o;
     }
     let mut since_flush = 0u64;
+    let all_below = check.all_lanes_below(ctx);
     while idx < a.end {
-        let mine = a.only.is_some() || (idx % a.nshards == a.shard && (idx / a.nshards) % a.stride == 0);
+        let mine = a.only.is_some() || (idx % a.nshards == a.shard && (idx < all_below || (idx / a.nshards) % a.stride == 0));
         if mine {
             println!("B {idx}");
             let r = guarded(|| check.run_case(ctx, idx));
